@@ -256,7 +256,7 @@ void observe_equality(const ST& st, const ref::Complex& m, const std::string& pr
       ST other;
       build_from_model(other, p);
       if (st == other || !(st != other)) bad("operator==", "equal to a tree lacking " + ref::str(last));
-      if constexpr (ST::Options::store_filtration) {
+      if (ST::Options::store_filtration && m.filt(last) + 1 != m.filt(last)) {  // (not for +inf: inf + 1 == inf)
         ref::Complex q = m;
         q.s[last] = q.s[last] + 1;
         ST other2;
